@@ -58,6 +58,11 @@ func GenBook(r *vh.Rand, n int, maxConns int) []BOp {
 			lv = append(lv, live{p, next[p], serial})
 			serial++
 			next[p] += 2
+		case k == 4 && r.Chance(1, 2):
+			// an open that fails in the key exchange (all-zero ephemeral key)
+			p := 1 + r.Intn(3)
+			ops = append(ops, BOp{Op: "openzero", Peer: p, ID: next[p]})
+			next[p] += 2
 		case k < 7 && len(lv) > 0:
 			t := lv[r.Intn(len(lv))]
 			tag++
